@@ -71,11 +71,62 @@ package unary
 
 //@ # which bound of the distance approximation is used as the sample offset (selection table)
 //@ func pickSampleOffset(approx index.DistanceApproximation) (off int64)
-//@   requires 0 <= approx.Lower && approx.Lower <= approx.Upper && approx.Upper <= 4611686018427387903
+//@   requires -4611686018427387904 <= approx.Lower && approx.Lower <= approx.Upper && approx.Upper <= 4611686018427387903
+//@   ensures  off == index.SpecPick(approx)
 //@   ensures  approx.Lower == approx.Upper || approx.StartExact ==> off == approx.Upper
 //@   ensures  approx.Lower != approx.Upper && !approx.StartExact && approx.EndExact ==> off == approx.Lower
 //@   ensures  approx.Lower != approx.Upper && !approx.StartExact && !approx.EndExact ==> off == (approx.Lower + approx.Upper) / 2
 //@   ensures  approx.Lower <= off && off <= approx.Upper
+
+//@ # ---------------------------------------------------------------- which bytes of a domain a step reads (C01/C10)
+//@ # Fixed-density channels (resolver.cache == nil; variable-length channels go through the offset
+//@ # table, which is not modelled). n(ts) below is the number of index stamps in [D.Start, ts), as
+//@ # defined by index.SpecCountIs over the index channel's domain DB.
+//@ # integer division by a positive divisor does not grow a non-negative number (the solvers do not derive this for a symbolic divisor inside a larger query)
+//@ lemma divBound(x int64, d int64)
+//@   requires x >= 0 && d >= 1
+//@   ensures  0 <= x / d && x / d <= x
+//@ ignore func (r *offsetResolver) tableFor(ctx context.Context, iter *domain.Iterator) (*offsetTable, error)
+//@ func (r *offsetResolver) byteOffset(ctx context.Context, iter *domain.Iterator, sampleIdx int64) (off telem.Size, err error)
+//@   overflow off
+//@   requires r.cache == nil && r.density > 0 && iter != nil
+//@   ensures  err == nil && off == specByteOff(r, iter, sampleIdx)
+//@   modifies nothing
+//@ func (r *offsetResolver) domainSampleCount(ctx context.Context, iter *domain.Iterator) (n int64, err error)
+//@   overflow off
+//@   requires r.cache == nil && r.density > 0 && iter != nil
+//@   ensures  err == nil && n == int64(iter.Size()) / int64(r.density)
+//@   modifies nothing
+//@ spec func sliceReady(i *Iterator) bool = i.internal != nil && i.idx != nil && i.idx.DB != nil && i.resolver != nil && i.resolver.cache == nil && i.resolver.density > 0 && domain.SpecDBLen(i.idx.DB) <= 2147483648 && domain.SpecIterValid(i.internal) && 0 <= i.internal.TimeRange().Start && i.internal.TimeRange().Start < i.internal.TimeRange().End && 0 <= i.view.Start && i.view.Start <= i.view.End
+//@ # samples before the start of the view: index stamps in [D.Start, max(D.Start, view.Start))
+//@ func (i *Iterator) approximateStart(ctx context.Context) (a index.DistanceApproximation, al telem.Alignment, err error)
+//@   overflow off
+//@   requires sliceReady(i)
+//@   ensures  err == nil ==> index.SpecCountIs(i.idx.DB, telem.TimeRange{Start: i.internal.TimeRange().Start, End: max(i.internal.TimeRange().Start, i.view.Start)}, index.SpecPick(a))
+//@   ensures  err == nil ==> -4611686018427387904 <= a.Lower && a.Lower <= a.Upper && a.Upper <= 4611686018427387903
+//@   modifies nothing
+//@ # samples before the end of the view: all of the domain if the view reaches its end, else index stamps in [D.Start, view.End)
+//@ func (i *Iterator) approximateEnd(ctx context.Context) (a index.DistanceApproximation, err error)
+//@   overflow off
+//@   pragma typed_heap
+//@   use_lemma divBound
+//@   requires sliceReady(i) && i.internal.TimeRange().Start <= i.view.End
+//@   ensures  err == nil && i.internal.TimeRange().End <= i.view.End ==> index.SpecPick(a) == int64(i.internal.Size()) / int64(i.resolver.density)
+//@   ensures  err == nil ==> -4611686018427387904 <= a.Lower && a.Lower <= a.Upper && a.Upper <= 4611686018427387903
+//@   ensures  err == nil && i.internal.TimeRange().End > i.view.End ==> index.SpecCountIs(i.idx.DB, telem.TimeRange{Start: i.internal.TimeRange().Start, End: i.view.End}, index.SpecPick(a))
+//@   modifies nothing
+//@ # the bytes of the current domain a step returns are those of samples ns .. ne-1, where ns and ne
+//@ # are the index counts above (capped at the domain's sample count)
+//@ func (i *Iterator) sliceDomain(ctx context.Context) (off telem.Size, al telem.Alignment, size telem.Size, err error)
+//@   overflow off
+//@   requires sliceReady(i) && i.internal.TimeRange().Start <= i.view.End
+//@   ensures  err == nil ==> (forall ns int64 :: index.SpecCountIn(i.idx.DB, telem.TimeRange{Start: i.internal.TimeRange().Start, End: max(i.internal.TimeRange().Start, i.view.Start)}, ns) ==> off == specByteOff(i.resolver, i.internal, ns))
+//@   ensures  err == nil && i.internal.TimeRange().End > i.view.End ==> (forall ne int64 :: index.SpecCountIn(i.idx.DB, telem.TimeRange{Start: i.internal.TimeRange().Start, End: i.view.End}, ne) ==> off + size == specByteOff(i.resolver, i.internal, ne))
+//@   ensures  err == nil && i.internal.TimeRange().End <= i.view.End ==> off + size == i.internal.Size()
+//@   modifies nothing
+//@ # byte position of sample n of the iterator's current domain (its end from the sample count on)
+//@ spec func specByteOff(r *offsetResolver, it *domain.Iterator, n int64) telem.Size = __ite(n >= int64(it.Size()) / int64(r.density), it.Size(), telem.Size(n) * telem.Size(r.density))
+//@ spec func specTotal(i *Iterator) int64 = int64(i.internal.Size()) / int64(i.resolver.density)
 
 //@ # ---------------------------------------------------------------- lock discipline (C09)
 //@ guarded_by offsetCache.tables mu
@@ -86,7 +137,7 @@ package unary
 //@ # approximation [Lower, Upper] over [domainStart, ts) that number is: Upper when the
 //@ # approximation is exact or only the target falls between samples; Lower when only the domain
 //@ # start does (index cut-off); the midpoint when both do (cases 1-4 in the source comment).
-//@ spec func SpecSamplesBefore(a index.DistanceApproximation) int64 = __ite(a.Lower == a.Upper || a.StartExact, a.Upper, __ite(a.EndExact, a.Lower, (a.Lower + a.Upper) / 2))
+//@ spec func SpecSamplesBefore(a index.DistanceApproximation) int64 = index.SpecPick(a)
 //@ ignorepkg github.com/synnaxlabs/cesium/internal/index
 //@ ignore func (db *DB) index() index.Index
 //@ ignore func (db *DB) resolveByteOffset() telem.Size
